@@ -685,7 +685,7 @@ impl Report {
 /// Outputs of the native run against the shadow values of the symbolic run: bit for bit, unless SYMX_OBS_RELTOL is set
 /// (harnesses whose code multiplies 2-D arrays: ndarray uses matrixmultiply's FMA kernels for f64 and plain loops for
 /// any other scalar, which differ in the last bits).  Then normal floating-point values may differ by that relative
-/// amount; everything else (integers recorded by observe_usize are subnormal bit patterns, zeros, NaN) stays exact.
+/// amount; everything else (integers recorded by observe_usize are subnormal bit patterns; NaN, infinities) stays exact.
 fn same_observations(native: &[u64], shadow: &[u64]) -> bool {
     static TOL: std::sync::OnceLock<f64> = std::sync::OnceLock::new();
     let tol = *TOL.get_or_init(|| std::env::var("SYMX_OBS_RELTOL").ok().and_then(|v| v.parse().ok()).unwrap_or(0.0));
@@ -697,7 +697,8 @@ fn same_observations(native: &[u64], shadow: &[u64]) -> bool {
             return true;
         }
         let (a, b) = (f64::from_bits(*x), f64::from_bits(*y));
-        tol > 0.0 && a.is_normal() && b.is_normal() && (a - b).abs() <= tol * (1.0 + a.abs().max(b.abs()))
+        let ok = |v: f64| v.is_normal() || v == 0.0;
+        tol > 0.0 && ok(a) && ok(b) && (a - b).abs() <= tol * (1.0 + a.abs().max(b.abs()))
     })
 }
 
